@@ -65,3 +65,12 @@ CLAIMS["C04"] = proof("C04", "Kernel-checked over the model: for every table, ev
                       "Rocq proof (inverse lemmas for put/remove and the stack operations, induction over move sequences) + snapshot equality on the real code + correspondence")
 CLAIMS["C07"] = proof("C07", "Kernel-checked over the model, relative to the model's own generator: depth 0 gives DepthTooLow, an empty legal list gives NoAvailableMoves, otherwise the answer is a member of the generated legal list and the board returned is the caller's; under the board invariant the search never panics; termination is structural. That the generated list is the FIDE legal list is C01 (correspondence + partial refinement). Runtime: real searches at depths 0..3 in pools of 1..64 threads under catch_unwind, answer checked against the rules' legal set and full board snapshots compared.",
                       "Rocq proof (sort permutations, board-threading induction over depth, totality under the invariant) + correspondence of the real search with the rules' legal set")
+
+CLAIMS["C03"] = proof("C03", "Kernel-checked over the model: for every well-formed board and every move satisfying move_ok (the shape facts of generated moves + 'a held right implies king and rook at home'; decidable, evaluated by the runner on every generated move of every scenario state), apply returns Ok, leaves the turn alone and the observable position afterwards IS Rules.successor (all 64 cells, rights, en-passant target, both clocks), with each clause of the statement as a named corollary. Tied to the code by comparing the full observable position after every legal move of generated trees, walks and set-ups with the model and the rules.",
+                      "Rocq proof (refinement of apply to Rules.successor, totality) + differential correspondence of every legal move's successor")
+CLAIMS["C12"] = proof("C12", "Kernel-checked over the model: Repr (the Prop form of the executable repr_ok: every clause of the statement) is preserved by apply for every move of generated shape, every generated move has that shape, castling rights only lose bits, and Repr holds in every state reached by legal moves, turn flips and undos AND in every transient state visited between a pseudo-legal move and its undo (InvC_reachable, Repr_visited), from any board satisfying the decidable invb. Tied to the code by evaluating every clause on the implementation's own bitboards at every node of trees, walks and set-ups.",
+                      "Rocq proof (inductive invariant over reachable and transient states) + invariant predicate on every visited state of the real code")
+CLAIMS["C13"] = proof("C13", "Kernel-checked over the model: the engine's label algorithm equals the FIDE/PGN rule (san_matches_spec), never fails on a well-formed candidate list, rendering is injective on well-formed labels and the disambiguation separates rivals, so no two moves of a position share a label (san_labels_nodup). The hypotheses about the candidate list are the decidable position_likeb, evaluated by the runner on the generated list of every scenario state. Tied to the code by comparing every label of every visited position with the model and the spec writer.",
+                      "Rocq proof (label = spec, injective rendering, rival separation) + differential correspondence of every label")
+CLAIMS["C18"] = proof("C18", "Kernel-checked on the evaluation tables translated from the source every run: static score of the colour-swapped rotated board is the exact negative (unconditionally once the score is defined), for legal material (nine queens admitted) every partial sum stays in i16 and |score| < |mate score| - 255, mate-score arithmetic cannot overflow for depths <= 255, stalemate scores zero, deeper mates score strictly better. Tied to the code by reading every table entry through the source translation and by flip / depth sweeps on the real evaluation with overflow checks on.",
+                      "Rocq proof (re-indexing symmetry, counting bound, sweeps of the translated tables) + correspondence on flipped and material-extreme positions")
